@@ -357,6 +357,12 @@ func (e *Env) trIdent(x *ast.Ident) TV {
 		if v, ok := e.locals(e, x.Name); ok {
 			return v
 		}
+		// a local variable that was renamed in the source: the re-binding chosen for this verification unit (main.go)
+		if alias, ok := vc.aliases[x.Name]; ok {
+			if v, ok := e.locals(e, alias); ok {
+				return v
+			}
+		}
 	}
 	if gv, ok := vc.specs.GhostVars[x.Name]; ok {
 		ge := &Env{vc: vc, pkg: gv.Pkg, vars: map[string]TV{}, heap: e.heap, old: e.old}
